@@ -50,7 +50,7 @@ verus! {
 //@contract-file fn/breader_truncate_to.c
 //@end
 
-//@extract src/journal/batch_reader.rs :: JournalBatchReader :: on_close world props=C03+C02+C09
+//@extract src/journal/batch_reader.rs :: JournalBatchReader :: on_close world props=C03+C02+C09+C15
 //@contract-file fn/breader_on_close.c
 //@end
 
